@@ -325,7 +325,7 @@ pub fn run(ctx: &Ctx) -> Evidence {
     // extracted graph (validates the forced exploration against unforced execution) and obey (ii)
     {
         use proptest::strategy::{Strategy, ValueTree};
-        let n_prog: usize = ctx.tier.pick(1500, 40_000);
+        let n_prog: usize = ctx.tier.pick(16_000, 200_000);
         let res = par_chunks(ctx.threads, 16, |k| {
             let mut runner = runner(mix(ctx.seed ^ 0xC09 ^ ((k as u64) << 36)), (n_prog / 16) as u32);
             let strat = crate::props::cpu::seq_strategy(50, 0);
